@@ -333,7 +333,8 @@ def run(fam, prop, tier):
         rs = replay_stats(d)
         for dv in rs["divergences"][:10]:
             log("CONFORMANCE-DIVERGENCE %s" % dv)
-        mc = model_check(fam, prop, tier, wd)
+        # VERIF_SKIP_MODEL: development aid (diagnosing a corpus); such a run never writes evidence/
+        mc = None if os.environ.get("VERIF_SKIP_MODEL") else model_check(fam, prop, tier, wd)
         inconclusive = None
         if mc is not None and not mc["ok"]:
             # the model is the design: a failure here is not a verdict about the code
